@@ -2,6 +2,8 @@
 # usage: scripts/try_mutant.sh seeded/<id> <PROPERTY> [quick|thorough]   (dev tool: applies, checks, always reverts)
 set -u
 D="$1"; P="$2"; T="${3:-quick}"
+rm -rf /verif/work/evidence_backup && cp -r /verif/evidence /verif/work/evidence_backup   # evidence of the unchanged tree
 cd /repo && git apply "/verif/$D/patch.diff" || { echo "patch does not apply"; exit 3; }
 cd /verif && scripts/check "$P" "$T" | grep -v "^KNOWN" | cut -c1-400; rc=${PIPESTATUS[0]}
 git -C /repo checkout -- . && echo "(reverted) rc=$rc"
+rm -rf /verif/evidence && cp -r /verif/work/evidence_backup /verif/evidence
